@@ -594,3 +594,88 @@ def chunk_generators(prog, cls, host: Func) -> List[Func]:
             seen.add(tgt.qual)
             out.append(tgt)
     return out
+
+
+
+def stop_order_delivery(prog, pf, f: Func):
+    """how the pool's __exit__ hands out its stop orders: ('plain', loop) = one blocking put(None) per element of self.procs;
+    ('bounded', loop) = a count-down from len(self.procs) whose puts carry a timeout and whose queue.Full handler gives up only when
+    every worker has finished; ('other', why) otherwise"""
+    sn = f.self_name
+    for st in f.node.body:
+        if isinstance(st, ast.For):
+            puts = [c for c in ast.walk(st) if isinstance(c, ast.Call) and queue_call(c) and queue_call(c)[0] == "put"
+                    and pf.qid(c.func.value, f, pf.pool) == pf.work_q]
+            if puts:
+                it_s = src(st.iter)
+                per_proc = it_s in (f"range(len({sn}.procs))", f"{sn}.procs")
+                single = len(st.body) == 1 and len(puts) == 1 and const_value(puts[0].args[0], 0) is None
+                if per_proc and single and queue_call(puts[0])[1] == "blocking":
+                    return "plain", st
+                return "other", f"`for ... in {it_s}` does not put exactly one None per element of self.procs"
+        if isinstance(st, ast.While):
+            puts = [c for c in ast.walk(st) if isinstance(c, ast.Call) and queue_call(c) and queue_call(c)[0] == "put"
+                    and pf.qid(c.func.value, f, pf.pool) == pf.work_q]
+            if not puts:
+                continue
+            # n = len(self.procs) before the loop; while n > 0
+            t = st.test
+            names_ = [x.id for x in ast.walk(t) if isinstance(x, ast.Name)]
+            from .cachefam import _eval_small
+            if len(set(names_)) != 1 or [_eval_small(t, {names_[0]: k_}) for k_ in (0, 1, 2, 7)] != [False, True, True, True]:
+                return "other", f"the stop-order loop `while {src(t)}` is not a count-down (it should hold exactly while the counter is positive)"
+            n = names_[0]
+            inits = [a for a in f.node.body if isinstance(a, ast.Assign) and len(a.targets) == 1 and isinstance(a.targets[0], ast.Name)
+                     and a.targets[0].id == n and f.node.body.index(a) < f.node.body.index(st)]
+            if not (len(inits) == 1 and src(inits[0].value) == f"len({sn}.procs)"):
+                return "other", f"`{n}` does not start at len(self.procs)"
+            if len(st.body) != 1 or not isinstance(st.body[0], ast.Try) or st.orelse:
+                return "other", "the stop-order loop is not a single try statement"
+            tr = st.body[0]
+            ok_body = len(tr.body) == 2 and isinstance(tr.body[0], ast.Expr) and tr.body[0].value in puts \
+                and const_value(puts[0].args[0], 0) is None and queue_call(puts[0])[1] in ("bounded", "nonblocking") \
+                and isinstance(tr.body[1], ast.AugAssign) and isinstance(tr.body[1].op, ast.Sub) and src(tr.body[1].target) == n \
+                and const_value(tr.body[1].value) == 1 and len(puts) == 1 and not tr.orelse and not tr.finalbody
+            if not ok_body:
+                return "other", "the try body is not `put(None, timeout=...)` followed by the decrement"
+            if len(tr.handlers) != 1 or "Full" not in src(tr.handlers[0].type or ast.Name(id="", ctx=ast.Load())):
+                return "other", "the retry is not a single `except queue.Full` handler"
+            hb = tr.handlers[0].body
+            # the handler leaves the loop only when every worker has finished
+            leaves = [x for x in ast.walk(tr.handlers[0]) if isinstance(x, (ast.Break, ast.Return, ast.Raise))]
+            for lv in leaves:
+                par = getattr(lv, "_parent", None)
+                if not (isinstance(par, ast.If) and lv in par.body and _all_finished_test(par.test, sn)):
+                    return "other", "the queue.Full handler can give up while a worker may still be running"
+            if any(isinstance(x, ast.AugAssign) and src(x.target) == n for h_ in hb for x in ast.walk(h_)):
+                return "other", "the handler counts an order that was not delivered"
+            return "bounded", st
+    return "other", "no loop putting stop orders on the work queue found"
+
+
+def _all_finished_test(t, sn: str) -> bool:
+    """all(p.exitcode is not None for p in self.procs)  /  not any(p.exitcode is None ...)  /  not any(p.is_alive() ...)"""
+    neg = False
+    while isinstance(t, ast.UnaryOp) and isinstance(t.op, ast.Not):
+        t, neg = t.operand, not neg
+    if not (isinstance(t, ast.Call) and isinstance(t.func, ast.Name) and t.func.id in ("all", "any") and len(t.args) == 1
+            and isinstance(t.args[0], (ast.GeneratorExp, ast.ListComp)) and len(t.args[0].generators) == 1):
+        return False
+    g = t.args[0]
+    gen = g.generators[0]
+    if src(gen.iter) != f"{sn}.procs" or gen.ifs or not isinstance(gen.target, ast.Name):
+        return False
+    p = gen.target.id
+    e = g.elt
+    finished = None            # does the element expression say "p has finished"?
+    if isinstance(e, ast.Compare) and len(e.ops) == 1 and src(e.left) == f"{p}.exitcode" and const_value(e.comparators[0], 0) is None:
+        finished = isinstance(e.ops[0], ast.IsNot) if isinstance(e.ops[0], (ast.Is, ast.IsNot)) else None
+    elif isinstance(e, ast.Call) and src(e.func) == f"{p}.is_alive" and not e.args:
+        finished = False
+    elif isinstance(e, ast.UnaryOp) and isinstance(e.op, ast.Not) and isinstance(e.operand, ast.Call) and src(e.operand.func) == f"{p}.is_alive":
+        finished = True
+    if finished is None:
+        return False
+    if t.func.id == "all":
+        return finished and not neg
+    return (not finished) and neg          # not any(<still running>)
